@@ -35,7 +35,7 @@ var c05Prelude = []string{
 }
 
 var c05Vals = []string{"a", "m", "s", "b", "f", "e", "u", "im", "imm", "fl", "ch", "t", "n", "1", "0", "-1", "\"x\"", "[]", "{}", "len", "inarr", "9223372036854775807",
-	"-9223372036854775807", "(-9223372036854775807 - 1)", "(fl * 1e308 * 10.0)", "(0.0 / (fl - fl))", "\"\"", "\"%d %s %v\"", "bytes(0)", "'\\x00'", "time(0)", "[a, [a, [a]]]", "{k: {k: {k: m}}}", "error(e)", "immutable([m, a])", "2147483648", "-2147483649", "1.5e300"}
+	"-9223372036854775807", "(-9223372036854775807 - 1)", "(fl * 1e308 * 10.0)", "(0.0 / (fl - fl))", "\"\"", "\"%d %s %v\"", "bytes(0)", "'\\x00'", "time(0)", "[a, [a, [a]]]", "{k: {k: {k: m}}}", "error(e)", "immutable([m, a])", "2147483648", "-2147483649", "1.5e300", "9007199254740993", "9007199254740992", "0.5", "9.007199254740993e15"}
 var c05BinOps = []string{"+", "-", "*", "/", "%", "&", "|", "^", "<<", ">>", "<", ">", "<=", ">=", "&^", "==", "!=", "&&", "||"}
 
 type c05Idiom struct {
